@@ -72,6 +72,14 @@ I = [
     ['diff', {'content': 'text'}],
     ['diff', {'content': b''}],
     ['diff', {'content': b'x\n', 'diff_type': 'patch'}],
+    # the wrong content type stays wrong whatever else is passed with it
+    ['diff', {'content': '--- a\n', 'diff_type': 'text',
+              'encoding': 'utf-8'}],
+    ['diff', {'content': 'x\n', 'encoding': 'utf-8'}],
+    ['diff', {'content': 'x\n', 'diff_type': 'text'}],
+    ['preamble', {'text': b'bytes', 'encoding': 'utf-8'}],
+    ['meta', {'metadata': '{"k": 1}'}],
+    ['meta', {'metadata': b'{"k": 1}', 'encoding': 'utf-8'}],
 ]
 
 # valid variants with options, so that V u I sequences also carry encodings
@@ -100,6 +108,8 @@ Q = [
     ['change', {'encoding': 'utf-8, x=1'}],
     ['file', {'encoding': 'utf-8\n#...meta: length=2'}],
     ['diff', {'content': b'x\n', 'encoding': 'UTF 8'}],
+    ['file', {'encoding': 'utf-8, length=5'}],
+    ['preamble', {'text': 'x', 'encoding': 'iso, ir=100'}],
 ]
 ALL = V2 + I + Q
 INVALID_KEYS = set(spec_key for spec_key in range(len(V2), len(V2) + len(I)))
@@ -273,6 +283,23 @@ def judge(calls, main='utf-8'):
         ids = [r.get('section') for r in recs]
         want = (['diffx'] + [sid for sid, _ in zip(want_ids, accepted)]
                 if _closed(w) else None)
+
+        if want is not None and err is None and ids == want:
+            # the header must say what the call said, and nothing else
+            for rec, (o, k) in zip(recs[1:], accepted):
+                if not is_questionable([o, k]):
+                    continue
+
+                opts = dict(rec.get('options') or {})
+                extra = set(opts) - {'encoding', 'length', 'indent',
+                                     'line_endings', 'format', 'mimetype',
+                                     'type'}
+
+                if opts.get('encoding') != k['encoding'] or extra:
+                    return (('accepted-call-wrote-other-options',
+                             '%s(encoding=%r) reads back as %r'
+                             % (o, k['encoding'], opts)),
+                            len(accepted), nrej, rej_then_acc)
 
         if err is not None and want is not None or \
                 (want is not None and ids != want):
@@ -507,9 +534,9 @@ def checks():
             'exhaustive', chunks, run_chunk, run_case=run_case,
             rule='all call sequences over the 5 operations with valid '
                  'arguments up to length LV, and all sequences over 12 valid '
-                 '+ 47 invalid-argument variants (wrong types, empty content, '
+                 '+ 53 invalid-argument variants (wrong types, empty content, '
                  'bad option values, unencodable text incl. lone surrogates, '
-                 'unknown and non-text codecs) + 8 codec names that cannot '
+                 'unknown and non-text codecs) + 10 codec names that cannot '
                  'stand as a header value (refused atomically, or accepted '
                  'and readable) up to length LA; per step: '
                  'accepted iff the section may follow (my table) and the '
